@@ -92,6 +92,8 @@ namespace vs
         std::vector<Thread *> pool;
         bool pool_poisoned{false};
         bool pinned{false};
+        std::function<void()> warmup;                     // re-run by run_controlled after a wedged execution abandoned the workers
+        bool in_warmup{false};
         std::vector<std::string> events;                 // optional schedule log for replay artefacts
         std::function<void()> on_idle;
         std::function<void(bool forced)> on_expiry;     // a timed wait was expired by the scheduler; forced = nothing else was enabled                   // nothing enabled and no timer: called once before declaring deadlock
@@ -335,7 +337,12 @@ namespace vs
             cpu_set_t set; CPU_ZERO(&set); CPU_SET(cpu, &set);
             sched_setaffinity(0, sizeof(set), &set);
         }
-        if (s.pool_poisoned) { s.pool.clear(); s.pool_poisoned = false; }   // abandoned threads stay parked forever
+        if (s.pool_poisoned)
+        {
+            // abandoned threads stay parked forever; the new workers are cold (per-thread caches of the runtime), so warm them as at start-up
+            s.pool.clear(); s.pool_poisoned = false;
+            if (s.warmup && !s.in_warmup) { s.in_warmup = true; s.warmup(); s.in_warmup = false; }
+        }
         s.threads.clear(); s.owner.clear(); s.depth.clear(); s.touched.clear(); s.trace.clear(); s.events.clear();
         s.prefix = prefix; s.steps = 0; s.deadlock = s.livelock = false; s.failure.clear(); s.shared_grew = false;
         s.clock_ns = start_clock_ns; s.clock_reads = 0;
